@@ -78,7 +78,7 @@ def run_abf(exe, case, scratch, timeout=30.0):
         dirs.append(d)
     F = case["freq"]
     out = [None] * len(case["events"])
-    with W.Team(exe, n, dirs) as T:
+    with W.Team(exe, n, dirs, timeout_ms=8000) as T:
         for r in T.all_do(lambda i: abf_setup(case), timeout):
             if not any(x.startswith("CONFIG err=ok") for x in r):
                 raise W.WalkerTimeout("configuration failed: %s" % r)
@@ -202,8 +202,9 @@ def content(d, grid, nbins):
             c[b] += g
             if g != int(g):
                 ok = False
-    nb = int(d.get("newbegin", 0))
-    for (it, ctr, wgt, rep) in d["hills"][nb:] if False else d["hills"]:
+    # keepHills is off: project_hills() erases the list after projecting it, so the list holds exactly the
+    # hills that are not in the grid yet
+    for (it, ctr, wgt, rep) in d["hills"]:
         b = int(ctr)        # centres are b + 0.5
         if 0 <= b < nbins:
             c[b] += wgt
@@ -253,8 +254,10 @@ def file_snapshot(dirs, gen, n):
     for i in range(n):
         hp = os.path.join(dirs[i], "out%d.colvars.m.w%d.hills" % (gen[i], i))
         sp = os.path.join(dirs[i], "out%d.colvars.m.w%d.state" % (gen[i], i))
-        snap[i] = {"hills_size": os.path.getsize(hp) if os.path.exists(hp) else None,
-                   "state_step": state_step(sp), "gen": gen[i]}
+        hb = read_bytes(hp)
+        snap[i] = {"hills_size": len(hb) if hb is not None else None,
+                   "state_step": state_step(sp), "gen": gen[i],
+                   "reclen": record_length(hb) if hb and b"}\n" in hb else None}
     return snap
 
 
@@ -270,3 +273,128 @@ def state_step(path):
     except OSError:
         return None
     return None
+
+
+# ------------------------------------------------------------------------------------------
+# view mode: the controller is the file system between a real writer P (id w1) and a real reader R (id w0)
+# ------------------------------------------------------------------------------------------
+
+def atomic_write(path, data):
+    tmp = path + ".ctl"
+    with open(tmp, "wb") as f:
+        f.write(data)
+    os.replace(tmp, path)
+
+
+def read_bytes(path):
+    try:
+        with open(path, "rb") as f:
+            return f.read()
+    except OSError:
+        return None
+
+
+def run_view(exe, case, scratch, timeout=30.0):
+    """Events:
+      ["ps", bin]        one step of the writer P            ["pr", newprefix]  restart of P
+      ["rs", bin]        one step of the reader R            ["rr"]             restart of R
+      ["ph", k]          R's view of P's current hills file becomes its first k bytes (k None = all on disk)
+      ["pl", k]          R's view of P's list file becomes its first k bytes (None = complete)
+      ["pt", k]          R's view of P's state file becomes its first k bytes (None = complete; robustness stream)
+    R's view of P's state file follows P atomically (rename), and its view of the hills file restarts empty
+    whenever P restarts its hills file, unless a "pt"/"ph" event says otherwise.
+    Returns (records, reclen): per event a dict with the parsed dump of the walker that moved, the number of
+    bytes of P's hills file that R can see, P's state step, and the sizes on P's side."""
+    pd = os.path.join(scratch, "p")
+    rd = os.path.join(scratch, "r")
+    vd = os.path.join(scratch, "view")
+    for d in (pd, rd, vd):
+        shutil.rmtree(d, ignore_errors=True)
+        os.makedirs(d)
+    regp = os.path.join(pd, "registry.txt")
+    regr = os.path.join(rd, "registry.txt")
+    vlist = os.path.join(vd, "m.w1.files.txt")
+    vstate = os.path.join(vd, "w1.state")
+    vhills = os.path.join(vd, "w1.hills")
+    full_list = ("stateFile %s\nhillsFile %s\n" % (vstate, vhills)).encode()
+    pgen = 0
+
+    def p_files():
+        return (os.path.join(pd, "out%d.colvars.m.w1.state" % pgen), os.path.join(pd, "out%d.colvars.m.w1.hills" % pgen))
+
+    view = {"hills_bytes": 0, "state_trunc": None, "p_state_sig": None, "registered": False}
+
+    def sync_view():
+        """follow P: a new state file (or hills file generation) is seen at once; the hills view restarts"""
+        sp, hp = p_files()
+        sb = read_bytes(sp)
+        sig = (pgen, state_step(sp), len(sb) if sb is not None else None)
+        if sb is not None and sig != view["p_state_sig"]:
+            view["p_state_sig"] = sig
+            view["hills_bytes"] = 0
+            view["state_trunc"] = None
+            atomic_write(vstate, sb)
+            atomic_write(vhills, b"")
+            if not view["registered"]:
+                atomic_write(vlist, full_list)
+                with open(regr, "a") as f:
+                    f.write("w1 %s\n" % vlist)
+                view["registered"] = True
+
+    out = []
+    with W.Team(exe, 2, [rd, pd], connect=False) as T:
+        R, P = T.walkers[0], T.walkers[1]
+        r0 = R.do(meta_setup(case, "w0", regr, "out0", case["restartfreq"][0]), timeout)
+        p0 = P.do(meta_setup(case, "w1", regp, "out0", case["restartfreq"][1]), timeout)
+        sync_view()
+        rgen = 0
+        for k, ev in enumerate(case["events"]):
+            rec = {"ev": ev}
+            if ev[0] == "ps":
+                r = P.do(["pos 1 0 0 %s" % float(ev[1] + 0.5).hex(), "step", "errtext", "dumpmeta m"], timeout)
+                rec["p"] = parse_meta(r)
+                sync_view()
+            elif ev[0] == "pr":
+                if ev[1]:
+                    pgen += 1
+                r = P.do(["postrun", "save text st%d" % k] +
+                         meta_setup(case, "w1", regp, "out%d" % pgen, case["restartfreq"][1], load="st%d" % k), timeout)
+                rec["p"] = parse_meta(r)
+                sync_view()
+            elif ev[0] == "ph":
+                hb = read_bytes(p_files()[1]) or b""
+                kk = len(hb) if ev[1] is None else min(ev[1], len(hb))
+                atomic_write(vhills, hb[:kk])
+                view["hills_bytes"] = kk
+            elif ev[0] == "pl":
+                atomic_write(vlist, full_list if ev[1] is None else full_list[:ev[1]])
+            elif ev[0] == "pt":
+                sb = read_bytes(p_files()[0]) or b""
+                atomic_write(vstate, sb if ev[1] is None else sb[:ev[1]])
+                view["state_trunc"] = ev[1]
+            elif ev[0] == "rs":
+                r = R.do(["pos 1 0 0 %s" % float(ev[1] + 0.5).hex(), "step", "errtext", "dumpmeta m"], timeout)
+                rec["r"] = parse_meta(r)
+            elif ev[0] == "rr":
+                r = R.do(["postrun", "save text st%d" % k] +
+                         meta_setup(case, "w0", regr, "out%d" % rgen, case["restartfreq"][0], load="st%d" % k), timeout)
+                rec["r"] = parse_meta(r)
+            hb = read_bytes(p_files()[1])
+            rec["reclen"] = record_length(hb) if hb and b"}\n" in hb else None
+            rec["view_hills_bytes"] = view["hills_bytes"]
+            rec["p_hills_bytes"] = len(hb) if hb is not None else None
+            rec["p_state_step"] = state_step(p_files()[0])
+            rec["pgen"] = pgen
+            out.append(rec)
+        hb = read_bytes(p_files()[1]) or b""
+    return out
+
+
+def record_length(data):
+    """length in bytes of the hill records of a hills file (None when there is no complete record or
+    the records differ in length)"""
+    recs = data.split(b"}\n")
+    lens = set(len(x) + 2 for x in recs[:-1])
+    if len(lens) != 1:
+        return None
+    return lens.pop()
